@@ -1,0 +1,73 @@
+//go:build verif
+// +build verif
+
+package gf2p16
+
+// Hooks for the runtime monitors under /verif. Compiled only with
+// -tags verif.
+
+// VerifHasSSSE3 returns the current dispatch setting.
+func VerifHasSSSE3() bool {
+	return verifGetSSSE3()
+}
+
+// VerifSetSSSE3 overrides the CPU dispatch decision and returns the
+// previous value. It must not be called while kernels are running.
+func VerifSetSSSE3(v bool) bool {
+	return verifSetSSSE3(v)
+}
+
+// VerifMulByteSliceLE runs the platform kernel with an explicit
+// dispatch choice.
+func VerifMulByteSliceLE(c T, in, out []byte, useSSSE3 bool) {
+	verifMulByteSliceLE(c, in, out, useSSSE3)
+}
+
+// VerifMulAndAddByteSliceLE runs the platform kernel with an
+// explicit dispatch choice.
+func VerifMulAndAddByteSliceLE(c T, in, out []byte, useSSSE3 bool) {
+	verifMulAndAddByteSliceLE(c, in, out, useSSSE3)
+}
+
+// VerifMulByteSliceLEGeneric runs the portable Go kernel.
+func VerifMulByteSliceLEGeneric(c T, in, out []byte) {
+	mulByteSliceLEGeneric(c, in, out)
+}
+
+// VerifMulAndAddByteSliceLEGeneric runs the portable Go kernel.
+func VerifMulAndAddByteSliceLEGeneric(c T, in, out []byte) {
+	mulAndAddByteSliceLEGeneric(c, in, out)
+}
+
+// VerifMulSliceGeneric runs the portable Go kernel on []T.
+func VerifMulSliceGeneric(c T, in, out []T) {
+	mulSliceGeneric(c, in, out)
+}
+
+// VerifMulAndAddSliceGeneric runs the portable Go kernel on []T.
+func VerifMulAndAddSliceGeneric(c T, in, out []T) {
+	mulAndAddSliceGeneric(c, in, out)
+}
+
+// VerifMulByteSliceLEPlatformLE runs the unsafe-cast path used on
+// little-endian platforms.
+func VerifMulByteSliceLEPlatformLE(c T, in, out []byte) {
+	mulByteSliceLEPlatformLE(c, in, out)
+}
+
+// VerifMulAndAddByteSliceLEPlatformLE runs the unsafe-cast path used
+// on little-endian platforms.
+func VerifMulAndAddByteSliceLEPlatformLE(c T, in, out []byte) {
+	mulAndAddByteSliceLEPlatformLE(c, in, out)
+}
+
+// VerifAccessRecorder, if non-nil, is called by the exported bulk
+// kernels with the slices they are about to read and write. It must
+// be set before any kernel runs and is called concurrently.
+var VerifAccessRecorder func(in, out []byte)
+
+func verifRecordAccess(in, out []byte) {
+	if r := VerifAccessRecorder; r != nil {
+		r(in, out)
+	}
+}
